@@ -175,6 +175,34 @@ def judge(case, part):
                     part.fail(tag % ("%s expected=%s observed=%s" % (where, expected, observed)), narrowed, expected, str(event))
                 elif observed == "reject" and ("'%s'" % decl["name"]) not in str(event):
                     part.fail(tag % (where + " error does not name the field"), narrowed, decl["name"], str(event))
+    if decl["fmt"] in ("excel", "ods"):
+        # the same cells stored in a workbook / spreadsheet document and read through the container reader: same verdicts; with them cells whose
+        # surplus or disallowed characters sit behind a run of blanks, a tabulator or a line break (which ODF stores as elements of their own)
+        payload = next((c for c in case["cells"] if len(c) >= 3 and fieldmodel.validate(decl, c)[0] == "accept"), None)
+        extras = []
+        if payload is not None:
+            extras = [payload[:-2] + "  " + payload, payload[:-1] + "\t" + payload, payload[:-1] + "\n" + payload, payload[:-3] + "  " + "~", payload[:-3] + "  " + "\xe9", payload[:-2] + "  ", payload[:1] + "  " + payload[3:]]
+        cells = list(dict.fromkeys(list(case["cells"]) + extras))
+        for numeric in ((False, True) if decl["fmt"] == "excel" and field_type in ("Integer", "Decimal") else (False,)):
+            where = "container-path" + (":number-cells" if numeric else "")
+            try:
+                usable, verdicts = c02.observe_via_cid(decl, cells + (["0", "1", "10", "-1"] if numeric else []), numeric_cells=numeric)
+            except Exception as error:
+                part.fail(tag % ("%s-raised-%s" % (where, type(error).__name__)), case, "rows readable", repr(error))
+                return
+            part.transitions += 1 + len(usable)
+            if len(verdicts) != len(usable):
+                part.fail(tag % (where + "-row-count"), case, len(usable), len(verdicts))
+                return
+            for cell, observed in zip(usable, verdicts):
+                expected, _ = fieldmodel.validate(decl, cell)
+                if expected is None:
+                    continue
+                part.validated += 1
+                if observed != expected:
+                    part.fail(tag % ("%s expected=%s observed=%s" % (where, expected, observed)), {"decl": case["decl"], "cells": [cell], "path": where}, expected, observed)
+        return
+    if decl["fmt"] in ("delimited", "fixed"):
         # and written through the validating Writer behind one header row (fixed data without line delimiter): the guards are the same
         try:
             verdicts = observe_via_writer(decl, usable)
